@@ -30,7 +30,7 @@ def run(tier, replay=None):
     scale = 2 if tier == "quick" else 3
     # the plain build is there for the allocator: ASan's quarantine keeps freed addresses from being reused,
     # the address-reuse observations (pointer hashes) need a run in which they are
-    tags = ["gasan", "plain"] if tier == "quick" else ["gasan", "casan", "plain"]
+    tags = ["gasan", "casan", "plain"]
     import shutil
     if shutil.which("valgrind"):
         tags.append("memcheck")   # the smallest grids on the uninstrumented build under valgrind (uninitialised values)
